@@ -283,3 +283,37 @@ pub fn closure_plan<T: Subj, Z: refmodel::ZNum>(ops: &[vengine::Op<T, Z>], tier:
             .with_aux(Aux::Exp, sets::exponents(T::BITS, Tier::Quick)),
     )
 }
+
+/// C08, logarithms at large widths: x in {b^k - 1, b^k, b^k + 1} for every k that fits (every
+/// `stride`-th k plus the last 40), for a small base list
+pub fn wide_log_plan<T: Subj>(stride: usize) -> Plan<T> {
+    let bits = T::BITS as u64;
+    let nb = T::bytes();
+    let max = if T::SIGNED { BigRef::pow2(bits - 1).sub(&big(1)) } else { BigRef::pow2(bits).sub(&big(1)) };
+    let bases: Vec<BigRef> = vec![big(10), big(2), big(3), big(7), big(255), BigRef::pow2(64).add(&big(1))];
+    let mut a: Vec<Vec<u8>> = Vec::new();
+    for b in &bases {
+        let mut powers: Vec<BigRef> = Vec::new();
+        let mut p = b.clone();
+        while p <= max {
+            powers.push(p.clone());
+            p = p.mul(b);
+        }
+        let n = powers.len();
+        for (k, p) in powers.iter().enumerate() {
+            if k % stride != 0 && k + 40 < n {
+                continue;
+            }
+            for d in -1..=1i128 {
+                let x = p.add(&big(d));
+                if !x.is_neg() && x <= max {
+                    a.push(x.to_le_bytes_wrapped(nb));
+                }
+            }
+        }
+    }
+    a.push(max.to_le_bytes_wrapped(nb));
+    let a = sets::dedup(a);
+    let b: Vec<Vec<u8>> = bases.iter().map(|x| x.to_le_bytes_wrapped(nb)).collect();
+    Plan::new("WIDE LOGS: b^k - 1, b^k, b^k + 1 up to the top of the range", &a, &b, &[]).with_aux(Aux::Exp, vec![0, 1, 2, 3])
+}
